@@ -90,6 +90,20 @@ def showArgOut : Argparse.Out → String
   | .error => "error"
   | .ok ns extras => "ok " ++ ";".intercalate (ns.map fun (k, v) => cp k ++ "=" ++ showVal v) ++ " | " ++ "/".intercalate (extras.map cp)
 
+/-- code points beyond ASCII whose Python `upper()` is ASCII (ß ı ſ and the ligatures ﬀ … ﬆ): the tools store such a name under
+    its ASCII upper-case; the model's `upper` maps a–z only and takes the name for a non-ascii one — outside the modelled domain -/
+def upperLeavesAscii (s : Str) : Bool := s.any (fun c => c == 223 || c == 305 || c == 383 || (64256 ≤ c && c ≤ 64262))
+
+/-- a relative path that climbs above the directory it starts from (`../x/f`): whether it comes back to the same place depends on
+    the name of the working directory, which the lexical `samePath` of the model does not know — outside the modelled domain -/
+def climbsOut (p : Str) : Bool := p.head? != some 47 && (normComponents p).head? == some [46, 46]
+
+def pathsModelled (ps : List Str) : Bool := !(ps.any upperLeavesAscii) && !(ps.any climbsOut)
+
+def srcPairs : List String → List (Bool × Str)
+  | f :: t :: rest => (f == "1", uncp t) :: srcPairs rest
+  | _ => []
+
 def handle (args : List String) : String :=
   match args with
   | "argv.parse" :: tool :: level :: rest =>
@@ -112,20 +126,23 @@ def handle (args : List String) : String :=
   | "tape.inject" :: v :: archive :: n :: rest =>
       let srcs := (rest.take n.toNat!).map uncp
       let w := worldOf (rest.drop n.toNat!)
-      showOutcome (Tape.inject (lookupWorld w) (v == "v") (uncp archive) srcs)
+      if pathsModelled (uncp archive :: srcs) then showOutcome (Tape.inject (lookupWorld w) (v == "v") (uncp archive) srcs) else "unmodelled"
   | ["tape.list", v, t] =>
       let tape := unhex t
       if tapeModelled tape then showOutcome (Tape.enumerate (v == "v") tape) else "unmodelled"
   | ["tape.extract", v, archive, into, t] =>
       let tape := unhex t
-      if tapeModelled tape then
+      if tapeModelled tape && pathsModelled (uncp archive :: (if into == "~" then [] else [uncp into])) then
         showOutcome (Tape.extract (v == "v") (uncp archive) (if into == "~" then none else some (uncp into)) tape)
       else "unmodelled"
   | ["tape.blocks", t] => ";".intercalate ((Tape.readAll (unhex t)).map hex)
   | "k7.tape" :: rest => hex (Spec.K7.tape (sfilesOf rest))
   | "k7.encsize" :: rest => toString (Spec.K7.encSize (sfilesOf rest))
   | "k7.render" :: pre :: rest => hex (Spec.K7.render (unhex pre) (wblocksOf rest))
-  | ["bas.convert", t] => (match Basic.convert (uncp t) with | some b => hex b | none => "ValueError")
+  | ["bas.convert", t] =>
+      -- C13 / C14 are about ASCII listings: beyond ASCII the tool writes UTF-8 bytes and Python's upper-casing, the model one byte per code point
+      if (uncp t).any (· ≥ 128) then "unmodelled"
+      else (match Basic.convert (uncp t) with | some b => hex b | none => "ValueError")
   | ["bas.body", t] => hex (Basic.encodeBody (uncp t))
   | ["bas.ref", t] => (if Spec.BasicRef.delimited (uncp t) then "1" else "0") ++ " " ++ hex (Spec.BasicRef.encodeRef (uncp t))
   | ["bas.program", f] =>
@@ -133,6 +150,12 @@ def handle (args : List String) : String :=
        | none => "bad"
        | some p => ";".intercalate (p.lines.map fun r => s!"{r.2.1}:{hex r.2.2}:{cp (Spec.BasicRef.decode false r.2.2)}"))
   | ["prettier", t] => ";".intercalate ((prettierText (uncp t)).map cp)
+  | "nl2" :: s :: i :: w :: rest =>
+      -- sources as pairs `<0|1> <text>`: 1 = standard input (no newline translation)
+      ";".intercalate ((nlRunSrc ⟨s.toNat!, i.toNat!, w.toNat!⟩ (srcPairs rest)).map cp)
+  | "spec.nl2" :: s :: i :: w :: rest =>
+      ";".intercalate ((Spec.specNl s.toNat! i.toNat! w.toNat! none ((srcPairs rest).flatMap (fun p => sourceLines p.1 p.2))).map cp)
+  | "prettier2" :: rest => ";".intercalate ((prettierSrc (srcPairs rest)).map cp)
   | "nl" :: s :: i :: w :: files =>
       ";".intercalate ((nlRun ⟨s.toNat!, i.toNat!, w.toNat!⟩ (files.map uncp)).map cp)
   | ["conv.toascii", t] => hex (toAsciiBasic (uncp t))
@@ -173,14 +196,18 @@ def handleDisk (blob : String → List Nat) (args : List String) : String × Lis
   | "disk.create" :: fl :: v :: archive :: outp :: n :: rest =>
       let srcs := (rest.take n.toNat!).map uncp
       let w := (worldOf' (rest.drop n.toNat!))
-      showDiskOutcome (Disk.createCmd (flavourOf fl) (lookupWorld w) (v == "v") (uncp archive) srcs) outp
+      if pathsModelled (uncp archive :: srcs) then showDiskOutcome (Disk.createCmd (flavourOf fl) (lookupWorld w) (v == "v") (uncp archive) srcs) outp
+      else ("unmodelled", [])
   | "disk.add" :: fl :: v :: archive :: pre :: outp :: n :: rest =>
       let srcs := (rest.take n.toNat!).map uncp
       let w := (worldOf' (rest.drop n.toNat!))
-      showDiskOutcome (Disk.addCmd (flavourOf fl) (lookupWorld w) (v == "v") (uncp archive) (blob pre) srcs) outp
+      if pathsModelled (uncp archive :: srcs) then showDiskOutcome (Disk.addCmd (flavourOf fl) (lookupWorld w) (v == "v") (uncp archive) (blob pre) srcs) outp
+      else ("unmodelled", [])
   | ["disk.list", fl, v, pre] => showDiskOutcome (Disk.list (flavourOf fl) (v == "v") (blob pre)) "/dev/null"
   | ["disk.extract", fl, v, archive, into, pre, outp] =>
-      showDiskOutcome (Disk.extract (flavourOf fl) (v == "v") (uncp archive) (if into == "~" then none else some (uncp into)) (blob pre)) outp
+      if pathsModelled (uncp archive :: (if into == "~" then [] else [uncp into])) then
+        showDiskOutcome (Disk.extract (flavourOf fl) (v == "v") (uncp archive) (if into == "~" then none else some (uncp into)) (blob pre)) outp
+      else ("unmodelled", [])
   | ["disk.archivename", fl, archive] =>
       ((match Disk.checkArchiveName (flavourOf fl) (uncp archive) with | .ok _ => "accepted" | .error _ => "refused"), [])
   | ["disk.setpayload", sec, v] => (hex (Disk.setPayload (blob sec) (blob v)), [])
